@@ -263,6 +263,11 @@ fn one_case(g: &mut Gen, prop: &str, id: usize, len: usize) -> Vec<String> {
     let n = 3 + c.g.below(len);
     match prop {
         "C09" => {
+            let seedrows = 1 + c.g.below(3);
+            for _ in 0..seedrows {
+                let p = c.g.below(c.peers);
+                c.new_row(p, true);
+            }
             for _ in 0..n {
                 let p = c.g.below(c.peers);
                 if let Some((bp, _)) = &c.in_batch {
@@ -304,13 +309,20 @@ fn one_case(g: &mut Gen, prop: &str, id: usize, len: usize) -> Vec<String> {
             for _ in 0..seedrows {
                 c.new_row(0, false);
             }
+            c.push("compute p=0".to_string());
             for p in 1..c.peers {
                 c.pull(p, 0, 1);
             }
             for _ in 0..n {
                 let p = c.g.below(c.peers);
                 match c.g.weighted(&[10, 8, 4, 1]) {
-                    0 => c.write(p, &[3, 6, 1, 2, 2, 2]),
+                    0 => {
+                        c.write(p, &[3, 6, 1, 2, 2, 2]);
+                        // the API asks for a recomputation after every acknowledged write
+                        if c.g.chance(9, 10) {
+                            c.push(format!("compute p={}", p));
+                        }
+                    }
                     1 => {
                         let src = (p + 1 + c.g.below(c.peers - 1)) % c.peers;
                         let room = if c.g.chance(1, 5) { 2 } else { 1 };
@@ -332,6 +344,9 @@ fn one_case(g: &mut Gen, prop: &str, id: usize, len: usize) -> Vec<String> {
                 let p = c.g.below(c.peers);
                 c.new_row(p, false);
             }
+            for p in 0..c.peers {
+                c.push(format!("compute p={}", p));
+            }
             for dst in 0..c.peers {
                 for src in 0..c.peers {
                     if dst != src {
@@ -342,8 +357,18 @@ fn one_case(g: &mut Gen, prop: &str, id: usize, len: usize) -> Vec<String> {
             for _ in 0..n {
                 let p = c.g.below(c.peers);
                 match c.g.weighted(&[4, 5, 9, 3]) {
-                    0 => c.write(p, &[2, 4, 0, 2, 2, 0]),
-                    1 => c.write(p, &[0, 0, 0, 0, 2, 6]),
+                    0 => {
+                        c.write(p, &[2, 4, 0, 2, 2, 0]);
+                        if c.g.chance(9, 10) {
+                            c.push(format!("compute p={}", p));
+                        }
+                    }
+                    1 => {
+                        c.write(p, &[0, 0, 0, 0, 2, 6]);
+                        if c.g.chance(9, 10) {
+                            c.push(format!("compute p={}", p));
+                        }
+                    }
                     2 => {
                         let src = (p + 1 + c.g.below(c.peers - 1)) % c.peers;
                         c.pull(p, src, 1)
